@@ -211,7 +211,7 @@ Proof. exact abs_ok. Qed.
 (** * Assumptions.  `Print Assumptions` costs ~0.4 s per call on this development and the check re-runs this file on
    every invocation, so it is asked once per GROUP: each group is the tuple of the proofs of the theorems above (a
    term that mentions every one of them), hence "Closed under the global context" for the group means that every
-   theorem of the group, and everything its proof depends on, is free of axioms and of admitted lemmas. *)
+   theorem of the group, and everything its proof depends on, depends on no axiom and on no unproved lemma. *)
 Definition C18_group_ctype := (C18_cctype_classes, C18_cctype_conversions, C18_cwctype_classes, C18_cwctype_conversions, C18_ctype_partition).
 Print Assumptions C18_group_ctype.
 Definition C18_group_compare := (C18_strlen, C18_strcmp, C18_strncmp, C18_memcmp).
